@@ -8,7 +8,7 @@ use crate::fields::FieldModOperation;
 use crate::fields::fn64::{fn_add, fn_mul, fn_pow, fn_sub, SM2_N, SM2_N_MINUS_TWO};
 use crate::fields::fp64::{fp_from_mont, random_u256};
 use crate::p256_ecc::{g_mul, Point};
-use crate::u256::{SM2_ONE, U256, u256_add, u256_cmp, u256_from_be_bytes};
+use crate::u256::{SM2_ONE, SM2_ZERO, U256, u256_add, u256_cmp, u256_from_be_bytes};
 use crate::util::{compute_za, DEFAULT_ID, kdf, xor_bytes};
 
 pub enum Sm2Model {
@@ -150,7 +150,8 @@ impl Sm2PublicKey {
         let p = p.to_affine_point();
         let x1 = u256_from_be_bytes(&fp_from_mont(&p.x).to_byte_be());
         let e = u256_from_be_bytes(&digest);
-        let r1 = fn_add(&x1, &e);
+        // x1 < p and e < 2^256 are not reduced modulo n yet: reduce both before adding
+        let r1 = fn_add(&fn_add(&x1, &SM2_ZERO), &fn_add(&e, &SM2_ZERO));
         return if u256_cmp(r, &r1) == 0 {
             Ok(())
         } else {
@@ -236,7 +237,8 @@ impl Sm2PrivateKey {
             let k = random_u256();
             let p_x = g_mul(&k).to_affine_point();
             let x1 = u256_from_be_bytes(&fp_from_mont(&p_x.x).to_byte_be());
-            let r = fn_add(&e, &x1);
+            // x1 < p and e < 2^256 are not reduced modulo n yet: reduce both before adding
+            let r = fn_add(&fn_add(&e, &SM2_ZERO), &fn_add(&x1, &SM2_ZERO));
             if r.is_zero() || u256_add(&r, &k).0 == *n {
                 continue;
             }
